@@ -459,6 +459,35 @@ func checkC20(w *World) {
 		w.check(P, "R20.5", "directory handling", 0, false, "no function returns fs.SkipDir: directories are always descended")
 	} else {
 		okSkip := false
+		nSkip, nSkipOK := 0, 0
+		for _, fn2 := range all {
+			allInstrs(fn2, func(in ssa.Instruction) {
+				ret, ok := in.(*ssa.Return)
+				if !ok || len(ret.Results) != 1 {
+					return
+				}
+				ld, ok := ret.Results[0].(*ssa.UnOp)
+				if !ok {
+					return
+				}
+				if g, ok := ld.X.(*ssa.Global); !ok || (g.Name() != "SkipDir" && g.Name() != "SkipAll") {
+					return
+				}
+				nSkip++
+				recursiveOff, isDir := false, false
+				for _, a := range guardAtoms(ret.Block()) {
+					if mainGlobalLoad(a.V) == "recursive" && !a.Pol {
+						recursiveOff = true
+					}
+					if c, ok := a.V.(*ssa.Call); ok && c.Call.IsInvoke() && c.Call.Method.Name() == "IsDir" && a.Pol {
+						isDir = true
+					}
+				}
+				if recursiveOff && isDir {
+					nSkipOK++
+				}
+			})
+		}
 		allInstrs(walker, func(in ssa.Instruction) {
 			ret, ok := in.(*ssa.Return)
 			if !ok || len(ret.Results) != 1 {
@@ -482,7 +511,7 @@ func checkC20(w *World) {
 			}
 			okSkip = recursiveOff && isDir
 		})
-		w.check(P, "R20.5", "SkipDir iff -r is off", walker.Pos(), okSkip, fmt.Sprintf("fs.SkipDir is returned for a directory only when the recursive flag is false: %v", okSkip))
+		w.check(P, "R20.5", "SkipDir iff -r is off", walker.Pos(), okSkip && nSkip == nSkipOK, fmt.Sprintf("%d returns of fs.SkipDir/SkipAll, %d of them for a directory with the recursive flag false (returned for a file, SkipDir silently drops the rest of that file's directory)", nSkip, nSkipOK))
 	}
 	nDiag, badDiag := 0, 0
 	for _, fn := range all {
